@@ -277,17 +277,24 @@ def gen_plan(seed: int, cls: str) -> dict:
             return ['dictref', ro.choice(sorted(hdicts))]
         return ro.choice(hspecs)
 
-    prologue = ['defclass', 'defclass'] if knobs.get('hpair') else []
+    prologue = ['defclass', 'defclass'] if knobs.get('hpair') else (['defenum'] if ro.random() < 0.4 else [])
     while len(ops) < nops:
         name = prologue.pop(0) if prologue else ro.choices(opnames, weights)[0]
-        if name == 'defclass':
+        if name in ('defclass', 'defenum'):
             if ncls >= 5:
                 continue
-            if ro.random() < 0.25 and not knobs.get('hpair'):
+            if name == 'defenum' or (ro.random() < 0.25 and not knobs.get('hpair')):
                 spec = tg.gen_enum_spec(ro, f'E{ncls}')
                 sym.enums[spec['name']] = True
                 sym.enum_specs[spec['name']] = spec
                 ops.append({'op': 'defenum', 'spec': spec})
+                if ro.random() < 0.7:
+                    rname = f'r{nroot}'
+                    nroot += 1
+                    roots[rname] = ro.choice([['enum', spec['name']], ['enum', spec['name']], ['list', ['enum', spec['name']]],
+                                              ['union', ['enum', spec['name']], ['s', 'float']]])
+                    roots[rname] = tg.normalise_unions(roots[rname])
+                    ops.append({'op': 'build', 'name': rname, 't': roots[rname]})
             else:
                 spec = tg.gen_class_spec(ro, sym, f'C{ncls}', [k for k in kinds if k not in ('tl', 'dl')],
                                          C10_SCALARS, custom_specs=class_customs,
@@ -475,7 +482,8 @@ def _equal_values_scenario(ro, sym, roots, pick_custom):
     memoised converter one after another, in a random order: a converter that remembers anything *per value* (a parse
     cache, an interned result) answers the later ones from the first.  Also placed inside the type's own valid shape.
     """
-    r = ro.choice(sorted(roots))
+    keyed = [r for (r, a) in sorted(roots.items()) if tg.contains(a, lambda x: x[0] in ('enum', 'lit', 'set', 'tset', 'frozenset', 'dict', 'tdict', 'tmap'))]
+    r = ro.choice(keyed) if keyed and ro.random() < 0.7 else ro.choice(sorted(roots))
     fam = list(ro.choice(EQUAL_FAMILIES))
     ro.shuffle(fam)
     custom = pick_custom()
